@@ -453,6 +453,32 @@ def sec_update_independent_of_requests(rep):
             rep.add(ob_eval(f"C14/compatibility.update/{fns} NfFF={nf_ff}: the translated theory is the same for every list of requested observables", ok, detail=detail if not ok else f"{len(requests)} request lists", inputs={} if ok else {"FNS": fns, "NfFF": nf_ff, "observed": detail}, replay={"confirmed": True, "python": "compatibility.update(theory, observables) for the listed request lists"}))
 
 
+def sec_process_history(rep):
+    """Results do not depend on what the interpreter computed before: the battery of
+    contracts/history_battery.py (twelve diverse real runs; alone in a fresh interpreter vs as elements of
+    three differently ordered sequences in one interpreter), operators compared bit for bit."""
+    from contracts import history_battery as hb
+
+    alone, seqs = hb.battery()
+    for i in range(len(hb.RUNS)):
+        rep.cases += 1
+        th, ob = hb.RUNS[i]
+        label = f"run {i} ({ob.get('prDIS')}, {sorted(ob['observables'])}, {th.get('FNS', 'ZM-VFNS')}, PTO={th.get('PTODIS')}, TMC={th.get('TMC', 0)}, target={ob.get('TargetDIS', 'proton')}, grid {len(ob['interpolation_xgrid'])} nodes/deg {ob.get('interpolation_polynomial_degree', 2)})"
+        ref = alone.get(i, "missing")
+        bad = []
+        if not isinstance(ref, str) or len(ref) != 64:
+            bad.append(("alone", ref))
+        for order, got in seqs:
+            if got.get(i) != ref:
+                bad.append((f"in the sequence {order} (after the runs {list(order[:order.index(i)])})", got.get(i)))
+        rep.add(ob_eval(f"C14/process-history/{label}: same operators alone in a fresh interpreter and inside every sequence", not bad, kind="invariant", detail=f"digest alone {str(ref)[:16]}; deviations {bad[:2]}", inputs={} if not bad else {"run": label, "theory overrides": str(th), "observables": str(ob["observables"]), "differs": str(bad[:3])}, replay={"confirmed": True, "python": "python -m contracts.history_battery <indices in that order>  vs  python -m contracts.history_battery <index>"}))
+
+
+        ok = hb.SPLIT.get(i) == "ok"
+        rep.cases += 1
+        rep.add(ob_eval(f"C14/request-history/{label}: every (observable, point) computed in a run of its own has the operator it has in the full run", ok, kind="invariant", detail=str(hb.SPLIT.get(i)), inputs={} if ok else {"run": label, "theory overrides": str(th), "observables": str(ob["observables"]), "observed": str(hb.SPLIT.get(i))}, replay={"confirmed": True, "python": f"python -m contracts.history_battery s{i}"}))
+
+
 def sec_frame(rep):
     """AST write-set: module-level mutable state written from inside functions."""
     root = os.path.join(boot.SRC, "yadism")
@@ -554,7 +580,7 @@ def run(rep, tier, seed, only=None):
         "the operators cached by the scale-variation manager are functions of their key only if convolve_operator writes every entry it returns: its contract (C01) is re-discharged here with an allocator model in which uninitialised memory (np.empty) holds a poison value",
         "dict lookups hash their keys: key collisions cannot be explored symbolically, so key *construction* is checked symbolically (components by name) and lookup on concrete histories",
     )
-    for nm, f in (("sf_cache", sec_sf_cache), ("esf", sec_esf_memo), ("other", sec_other_caches), ("shared", sec_shared_state), ("runner", sec_runner), ("updaterequests", sec_update_independent_of_requests), ("rgeshared", lambda r: __import__("contracts.c05", fromlist=["x"]).sec_rge_shared(r)), ("frame", sec_frame), ("weightsframe", H.weights_frame), ("svframe", lambda r: [__import__("contracts.c05", fromlist=["x"]).switch_worker(r, it) for it in ((2, 5, "intrinsic"), (1, 3, "intrinsic"), (3, 4, "intrinsic"))]), ("computeraw", lambda r: __import__("contracts.c05", fromlist=["x"]).sec_compute_raw(r)), ("convolveoperator", lambda r: __import__("contracts.c01", fromlist=["x"]).sec_convolve_vector(r)), ("bounded", lambda r: sec_bounded_end_to_end(r, tier))):
+    for nm, f in (("sf_cache", sec_sf_cache), ("esf", sec_esf_memo), ("other", sec_other_caches), ("shared", sec_shared_state), ("runner", sec_runner), ("updaterequests", sec_update_independent_of_requests), ("rgeshared", lambda r: __import__("contracts.c05", fromlist=["x"]).sec_rge_shared(r)), ("frame", sec_frame), ("processstate", H.no_process_state_lemma), ("processhistory", sec_process_history), ("weightsframe", H.weights_frame), ("svframe", lambda r: [__import__("contracts.c05", fromlist=["x"]).switch_worker(r, it) for it in ((2, 5, "intrinsic"), (1, 3, "intrinsic"), (3, 4, "intrinsic"))]), ("computeraw", lambda r: __import__("contracts.c05", fromlist=["x"]).sec_compute_raw(r)), ("convolveoperator", lambda r: __import__("contracts.c01", fromlist=["x"]).sec_convolve_vector(r)), ("bounded", lambda r: sec_bounded_end_to_end(r, tier))):
         if only and only not in nm:
             continue
         rep.add(guarded(f"C14/{nm}", lambda f=f: (f(rep), [])[1]))
